@@ -2,6 +2,7 @@ package c17
 
 import (
 	"encoding/base64"
+	"encoding/json"
 	"fmt"
 	"strings"
 
@@ -60,6 +61,13 @@ func slotValue(t ftype, n int, jsonSpelling bool, noBase64 bool) (v *tbin.Val, t
 	switch t.name {
 	case "string":
 		s := fmt.Sprintf("str%d", n)
+		if n == slotBody || n == slotMember {
+			// values that live in the JSON body carry characters that JSON escapes (quote, backslash, solidus, newline,
+			// a non-ASCII rune): the field gets the DENOTED string
+			s = fmt.Sprintf("s\"t\\r/%d\n\u00e9", n)
+			j, _ := json.Marshal(s)
+			return tbin.Str(s), s, string(j)
+		}
 		return tbin.Str(s), s, fmt.Sprintf("%q", s)
 	case "i32":
 		// the http text of the odd slots carries a leading zero (a decimal number all the same: zip codes, padded ids)
